@@ -41,6 +41,9 @@ func (c20) Describe() core.Info {
 func (c20) Gen(r *rand.Rand, tier string, i int) any {
 	o := gen.ProgOpts{Negation: true, Compare: true, Functions: r.Intn(2) == 0, Lists: r.Intn(3) == 0, Wildcards: r.Intn(2) == 0, Shuffle: 5, FnInAtoms: r.Intn(2) == 0, Mix: r.Intn(3) == 0}
 	p := gen.RandProgram(r, o)
+	if i%10 == 3 {
+		p = gen.RandClosureProgram(r) // non-linear recursion whose later atoms need facts of later rounds
+	}
 	return progCase{Prog: p, Text: progText(p)}
 }
 
